@@ -125,7 +125,7 @@ theorem C04_single_writer_one_loop :
 theorem C04_single_writer_chain_writes :
     fnsOf "AddBlock" = ["Executer.processValidated", "Executer.processGenesisBlock"] ∧
     fnsOf "RemoveBlock" = ["Executer.deleteBlock"] ∧
-    fnsOf "ClearTempBlocks" = ["blockSyncer.Sync", "fastSyncer.Sync"] := by
+    (fnsOf "ClearTempBlocks").eraseDups = ["blockSyncer.Sync", "fastSyncer.Sync"] := by
   decide +kernel
 
 /-- the synchronisers keep the two method values in `processor` / `reverter` (set once, in the literals of
